@@ -92,6 +92,11 @@ def run(ctx):
         if i % 3 == 0:
             c["tterm"] = [40, 100, 400][i % 9 // 3]
         c["period"] = [1, 1000, 100000][i % 3]
+        c["t0"] = 1 if i % 2 else 0          # events (and predicates first true) at timestamp 0
+        if i % 4 == 1:
+            # every LP satisfies its predicate at its very first event, which for some LPs is at timestamp 0
+            c["thr"], c["spread"], c["t0"], c["lps"] = 1 + (i // 4) % 2, 0, 1, max(c["lps"], 3)
+            c.pop("tterm", None)
     tot = {"runs": 0, "dispatches": 0, "ties": 0}
     divs = []
     with concurrent.futures.ThreadPoolExecutor(max_workers=12) as ex:
@@ -103,6 +108,8 @@ def run(ctx):
                 divs.append(r)
             if r["outcome"] == "crash":
                 ctx.violation("runtime-crash", {"cfg": r["cfg"], "output": r["out"][-600:]}, True)
+            if r.get("premature"):
+                ctx.violation("serial-stopped-before-all-predicates-hold", {"cfg": r["cfg"], "lps_short": r["premature"]}, True)
             if r["unsorted"]:
                 ctx.violation("serial-dispatch-not-sorted", {"cfg": r["cfg"], "count": r["unsorted"]}, True)
             if len(ctx.samples) < 8:
